@@ -3,7 +3,7 @@
     source with arbitrary short reads.  Only statements live here. *)
 From Coq Require Import List ZArith Bool.
 From V Require Import Gen.Params Lib.Hex Wire.Varint H3Stream.Model H3Stream.Proofs H3Stream.ProofsStream
-  H3Stream.ProofsExact H3Stream.ProofsBody H3Stream.ProofsTrunc H3Stream.ProofsSettings H3Stream.ProofsSched H3Stream.Conn H3Stream.ProofsConn H3Stream.ConnExamples H3Stream.E2E H3Stream.E2EResponse.
+  H3Stream.ProofsExact H3Stream.ProofsBody H3Stream.ProofsTrunc H3Stream.ProofsSettings H3Stream.ProofsSched H3Stream.Conn H3Stream.ProofsConn H3Stream.ConnExamples H3Stream.E2E H3Stream.E2EResponse H3Stream.ProofsTrailers.
 Import ListNotations.
 Open Scope Z_scope.
 
@@ -536,3 +536,27 @@ Theorem C18_one_response_end_to_end_partial :
        (all_pos bufs -> (0 < length bufs)%nat -> e = Some EEOF)).
 Proof. exact one_response_end_to_end_partial. Qed.
 Print Assumptions C18_one_response_end_to_end_partial.
+
+(** TRAILERS at the stream level (round 6; closes the "no trailers" gap of C18_data_exact for one
+    trailer section): DATA / ignorable frames, then ONE HEADERS frame (any accepted varint encoding,
+    block within the header limit), then FIN.  For every short-read schedule and buffer sequence:
+    the reads return a prefix of the DATA payloads; the trailer block reaches the trailer callback
+    only after ALL payload bytes, exactly once and byte for byte; the only error is io.EOF and then
+    body and trailers are complete; the connection is not closed.  (With the QPACK round trip,
+    C19_writer_decode_agree turns the block into exactly the trailer fields the writer emitted.) *)
+Theorem C18_data_exact_with_trailers :
+  forall (fs : list wframe) (th lh blk : list Z) (sched : list Z) (fw : bool) (maxHdr : Z) (bufs : list Z),
+  Forall wf_frame fs -> venc th 1 -> venc lh (zlen blk) -> zlen blk <= maxHdr ->
+  exists out e x' tl,
+    stream_reads (new_stream (mkSrc (wire fs ++ trailer_enc th lh blk) sched EEOF fw) maxHdr) bufs = (out, e, x') /\
+    payload fs = out ++ tl /\ x_closed x' = None /\
+    ((e = None /\ (x_trailers x' = [] \/ (tl = [] /\ x_trailers x' = [blk]))) \/
+     (e = Some EEOF /\ tl = [] /\ x_trailers x' = [blk])).
+Proof. exact data_exact_with_trailers. Qed.
+Print Assumptions C18_data_exact_with_trailers.
+
+Example C18_example_trailers :
+  let '(out, e, x') := stream_reads (new_stream (mkSrc ([0; 2; 8; 9] ++ trailer_enc [1] [3] [170; 187; 204]) [1; 1; 2] EEOF true) 64) [1; 5; 5; 5] in
+  out = [8; 9] /\ e = Some EEOF /\ x_trailers x' = [[170; 187; 204]] /\ x_closed x' = None.
+Proof. vm_compute. auto. Qed.
+Print Assumptions C18_example_trailers.
